@@ -15,8 +15,8 @@ thread_local! {
 pub fn hash2(a: &Fr, b: &Fr) -> Fr {
     MEMO.with(|m| {
         let mut m = m.borrow_mut();
-        if m.len() > 2_000_000 {
-            m.clear();
+        if m.len() > 1_000_000 {
+            *m = HashMap::new();
         }
         *m.entry((*a, *b))
             .or_insert_with(|| rln::hashers::poseidon_hash(&[*a, *b]))
